@@ -20,9 +20,13 @@ registry! {
     "C01" => c01,
     "C02" => c02,
     "C05" => c05,
+    "C10" => c10,
+    "C11" => c11,
     "C15" => c15,
     "C16" => c16,
     "C17" => c17,
+    "C19" => c19,
+    "C23" => c23,
     "C24" => c24,
     "C36" => c36,
     "C37" => c37,
